@@ -18,15 +18,19 @@ type c12Start struct {
 }
 
 type c12Ev struct {
-	K string `json:"k"` // tick div tima tma tac
+	K string `json:"k"` // tick div tima tma tac | ticks (N plain ticks, history prefixes only)
 	V uint8  `json:"v"`
+	N int    `json:"n,omitempty"`
 }
 
 type c12Case struct {
-	Start  c12Start `json:"start"`
-	Depth  int      `json:"depth,omitempty"`
-	MaxDev int      `json:"max_dev,omitempty"`
-	Path   []c12Ev  `json:"path,omitempty"`
+	Start c12Start `json:"start"`
+	// Pre: a fixed history executed (in lock-step, every step compared) before the enumeration starts,
+	// so that the search begins in a non-initial state (e.g. after a completed overflow/reload).
+	Pre    []c12Ev `json:"pre,omitempty"`
+	Depth  int     `json:"depth,omitempty"`
+	MaxDev int     `json:"max_dev,omitempty"`
+	Path   []c12Ev `json:"path,omitempty"`
 }
 
 type c12Pair struct {
@@ -98,15 +102,15 @@ func (p *c12Pair) apply(ev c12Ev) (f *explore.Fail, prune bool) {
 }
 
 func c12Events(tmaVals, timaVals []uint8) []c12Ev {
-	evs := []c12Ev{{"tick", 0}, {"div", 0}}
+	evs := []c12Ev{{K: "tick"}, {K: "div"}}
 	for _, v := range timaVals {
-		evs = append(evs, c12Ev{"tima", v})
+		evs = append(evs, c12Ev{K: "tima", V: v})
 	}
 	for _, v := range tmaVals {
-		evs = append(evs, c12Ev{"tma", v})
+		evs = append(evs, c12Ev{K: "tma", V: v})
 	}
 	for v := 0; v < 8; v++ {
-		evs = append(evs, c12Ev{"tac", uint8(v)})
+		evs = append(evs, c12Ev{K: "tac", V: uint8(v)})
 	}
 	return evs
 }
@@ -115,6 +119,23 @@ var c12Alphabet = c12Events([]uint8{0x00, 0x57, 0xff}, []uint8{0x00, 0x57, 0xff}
 
 func c12Check(l *explore.Local, _ struct{}, c c12Case) *explore.Fail {
 	p := c12New(c.Start)
+	for _, ev := range c.Pre {
+		n := 1
+		if ev.K == "ticks" {
+			n, ev = ev.N, c12Ev{K: "tick"}
+		}
+		for i := 0; i < n; i++ {
+			f, prune := p.apply(ev)
+			l.Trans(1)
+			if f != nil {
+				f.Msg += " [in the history prefix]"
+				return f
+			}
+			if prune {
+				return nil
+			}
+		}
+	}
 	if c.Path != nil {
 		for _, ev := range c.Path {
 			f, prune := p.apply(ev)
@@ -152,7 +173,7 @@ func c12Check(l *explore.Local, _ struct{}, c c12Case) *explore.Fail {
 			l.State(1)
 			if f != nil {
 				if fail == nil {
-					f.Case = c12Case{Start: c.Start, Path: append(append([]c12Ev(nil), path...), ev)}
+					f.Case = c12Case{Start: c.Start, Pre: c.Pre, Path: append(append([]c12Ev(nil), path...), ev)}
 					fail = f
 				}
 			} else if !prune {
@@ -249,7 +270,7 @@ func c12LongCheck(l *explore.Local, _ struct{}, c c12Long) *explore.Fail {
 				return nil
 			}
 		}
-		f, prune := p.apply(c12Ev{"tick", 0})
+		f, prune := p.apply(c12Ev{K: "tick"})
 		l.Trans(1)
 		if f != nil {
 			return f
@@ -262,6 +283,8 @@ func c12LongCheck(l *explore.Local, _ struct{}, c c12Long) *explore.Fail {
 	l.Outcome(uint64(p.impl.ReadTIMA()) | uint64(p.impl.ReadDIV())<<8)
 	return nil
 }
+
+func timerBitOf(tac uint8) uint { return [4]uint{9, 3, 5, 7}[tac&3] }
 
 // overflowTicks runs the model alone and returns the tick indices at which TIMA overflows.
 func c12OverflowTicks(s c12Start, ticks int) []int {
@@ -316,6 +339,46 @@ func init() {
 					}
 				}, func() struct{} { return struct{}{} }, c12Check)
 		}
+		// non-initial start states: a complete overflow/reload history (plain, cancelled, disturbed by a DIV or TMA
+		// write in the overflow or reload cycle), then the timer is stopped and the divider runs once around, so that
+		// the enumeration covers the counter values at which that history happened a second time
+		hdepth := 9
+		if c.Thorough() {
+			hdepth = 12
+		}
+		explore.Product(c.R, "after-overflow-history", explore.PartOpt{
+			Bound:  fmt.Sprintf("history, TAC<-stopped, 16,384-k ticks, then depth %d with at most 3 non-tick events", hdepth),
+			Domain: "TAC 4-7 x TMA {00,23,FF} x 7 histories (plain reload; TIMA write cancelling it; DIV write in the overflow cycle / in the reload cycle; TMA write in the reload cycle; two overflows; DIV write two cycles after the reload) x wrap-around offsets k in {6, 10}"},
+			func(yield func(c12Case) bool) {
+				for _, tac := range []uint8{4, 5, 6, 7} {
+					period := uint16(1) << (timerBitOf(tac) + 1)
+					for _, tma := range []uint8{0x00, 0x23, 0xff} {
+						s := c12Start{Counter: period - 8, TIMA: 0xff, TMA: tma, TAC: tac}
+						ov := c12OverflowTicks(s, 64)
+						if len(ov) == 0 {
+							continue
+						}
+						toOvf := ov[0] + 1 // ticks until TIMA has overflowed (reads 00)
+						hist := [][]c12Ev{
+							{{K: "ticks", N: toOvf + 2}},
+							{{K: "ticks", N: toOvf}, {K: "tima", V: 0x57}, {K: "ticks", N: 2}},
+							{{K: "ticks", N: toOvf}, {K: "div"}, {K: "ticks", N: 2}},
+							{{K: "ticks", N: toOvf + 1}, {K: "div"}, {K: "ticks", N: 1}},
+							{{K: "ticks", N: toOvf + 1}, {K: "tma", V: 0x57}, {K: "ticks", N: 1}},
+							{{K: "ticks", N: toOvf + 2}, {K: "tima", V: 0xff}, {K: "ticks", N: int(period/4) + 2}},
+							{{K: "ticks", N: toOvf + 2}, {K: "div"}, {K: "ticks", N: 1}},
+						}
+						for _, h := range hist {
+							for _, k := range []int{6, 10} {
+								pre := append(append([]c12Ev(nil), h...), c12Ev{K: "tac", V: 0}, c12Ev{K: "ticks", N: 16384 - k})
+								if !yield(c12Case{Start: s, Pre: pre, Depth: hdepth, MaxDev: 3}) {
+									return
+								}
+							}
+						}
+					}
+				}
+			}, func() struct{} { return struct{}{} }, c12Check)
 		// long runs
 		explore.Product(c.R, "writes-around-overflows", explore.PartOpt{
 			Bound:  "1 write at every offset -3..+4 around each of the first overflows, plus a second write 0-3 cycles later; every tick compared",
